@@ -613,7 +613,7 @@ PROPS = {
         ],
         "tested_not_proved": [
             "that spec_util::build_node refines SpecBuild.build_node: every generated document (well-formed with hoisted/shadowed typeDefs, single-rule violations, attribute soups incl. tags and non-string keys) is built by both and the results compared (accept/reject and the spec exactly; the error kind is compared but a difference there alone is not counted)",
-            "'every declared parameter present' is checked by the monitor members_present on every accepted document; a declarative Denotes relation is not yet proved equivalent to build",
+            "'every declared parameter present': proved for the model (every_declared_parameter_is_present, members_are_built_in_the_subs_scope, variant_options_are_the_declared_entries: members = the entries that are neither type nor a type definition, each built in the sub's own scope); for the implementation checked by the monitor members_present on every accepted document",
         ],
     },
     "C11": {
